@@ -1,4 +1,5 @@
 import Qsx.Model.Wire
+import Qsx.Model.Verdict
 import Qsx.Model.Driver
 import Qsx.Model.Num
 import Qsx.Model.BasisFile
@@ -299,6 +300,21 @@ def answer (cx : Ctx) (toks : List String) : Ctx × List String :=
     let bad := Qsx.Gen.directWriters.filter (fun e => !Qsx.Log.allowedSite e)
     (cx, [s!"writers {Qsx.Gen.directWriters.length} {bad.length}"] ++
          bad.map fun e => s!"site {e.1} {e.2.1} {e.2.2.1} {e.2.2.2.1} {e.2.2.2.2}")
+  | "verdict" :: rest =>
+    -- C12: verdict <ilp> cstat rstat x s y : multiplication check of the basic solution, verdicts, dual bound
+    let r : Option (List String) := (do
+      let P ← pILP cx
+      let cs ← pStat; let rs ← pStat
+      let x ← pRatArr cx; let s ← pRatArr cx; let y ← pRatArr cx
+      let b : Qsx.Verdict.BSol := { x := x, s := s, y := y }
+      let b2s (b : Bool) := if b then "1" else "0"
+      pure [s!"basic {b2s (Qsx.Verdict.isBasicSol P cs rs b)}",
+            s!"pfeas {b2s (Qsx.Verdict.primalFeasible P b)}",
+            s!"dfeas {b2s (Qsx.Verdict.dualFeasible P cs rs b)}",
+            s!"opt {b2s (Qsx.Verdict.optimalVerdict P cs rs b)}",
+            s!"dbound {fmtRat cx (Qsx.Verdict.dualBound P cs rs b)}",
+            s!"objv {fmtRat cx (P.objv (rget b.x) (rget b.s))}"]).run' rest
+    (cx, r.getD ["bad-op"])
   | "tointernal" :: rest =>
     let r : Option (List String) := (do
       let L ← pLP cx
